@@ -4,6 +4,6 @@ CONSTANTS
   Pats = {0, 1, 2}
   MaxMarkers = 5
   MaxKey = 3
-  CompLens = {0, 1, 16, 17}
+  CompLens = {0, 1, 8, 16, 17}
 INVARIANTS Emit
 CHECK_DEADLOCK FALSE
